@@ -123,7 +123,7 @@ pub mod ledger {
     }
 }
 
-pub const PATHS: [&str; 8] = ["slice", "vec_exact", "vec_excess", "vec_empty", "box", "cow_borrowed", "cow_owned", "iter"];
+pub const PATHS: [&str; 10] = ["slice", "vec_exact", "vec_excess", "vec_empty", "box", "cow_borrowed", "cow_owned", "iter", "vec_big_excess", "vec_empty_big"];
 
 pub fn construct(path: &str, data: &[u8]) -> SharedBytes {
     match path {
@@ -139,6 +139,17 @@ pub fn construct(path: &str, data: &[u8]) -> SharedBytes {
             SharedBytes::from(v)
         }
         "vec_empty" => SharedBytes::from_vec(Vec::new()),
+        "vec_big_excess" => {
+            // spare capacity of more than a page: what a read_to_end or a reused buffer leaves behind
+            let mut v = Vec::with_capacity(data.len() + 9000);
+            v.extend_from_slice(data);
+            SharedBytes::from_vec(v)
+        }
+        "vec_empty_big" => {
+            // an EMPTY vector that owns a large buffer; the data is ignored
+            let _ = data;
+            SharedBytes::from_vec(Vec::with_capacity(8192))
+        }
         "box" => SharedBytes::from(data.to_vec().into_boxed_slice()),
         "cow_borrowed" => SharedBytes::from(Cow::Borrowed(data)),
         "cow_owned" => SharedBytes::from(Cow::<[u8]>::Owned(data.to_vec())),
@@ -217,7 +228,7 @@ pub fn replay(args: &[String]) {
     for (ci, beh) in cases.iter().enumerate() {
         rep.cases += 1;
         let path = PATHS[ci % PATHS.len()];
-        let len = if path == "vec_empty" { 0 } else { [0usize, 1, 31, 4096, 7][rng.gen_range(0..5)] };
+        let len = if path == "vec_empty" || path == "vec_empty_big" { 0 } else { [0usize, 1, 31, 4096, 7][rng.gen_range(0..5)] };
         let data: Vec<u8> = (0..len).map(|_| rng.gen()).collect();
         ledger::start();
         let before = ledger::live();
@@ -299,7 +310,7 @@ pub fn replay(args: &[String]) {
     for round in 0..30 {
         rep.cases += 1;
         let path = PATHS[round % PATHS.len()];
-        let data: Vec<u8> = (0..if path == "vec_empty" { 0 } else { 1 + round * 13 }).map(|_| rng.gen()).collect();
+        let data: Vec<u8> = (0..if path == "vec_empty" || path == "vec_empty_big" { 0 } else { 1 + round * 13 }).map(|_| rng.gen()).collect();
         ledger::start();
         let before = ledger::live();
         {
@@ -380,7 +391,7 @@ pub fn replay(args: &[String]) {
         rep.checks += 1;
         let a: Vec<u8> = (0..rng.gen_range(0..6)).map(|_| rng.gen_range(0..4)).collect();
         let b: Vec<u8> = (0..rng.gen_range(0..6)).map(|_| rng.gen_range(0..4)).collect();
-        let pa = PATHS[rng.gen_range(0..8usize)];
+        let pa = PATHS[rng.gen_range(0..9usize)];
         let (sa, sb) = (construct(if pa == "vec_empty" && !a.is_empty() { "slice" } else { pa }, &a), construct("slice", &b));
         let h = |x: &dyn Fn(&mut DefaultHasher)| {
             let mut s = DefaultHasher::new();
@@ -392,12 +403,40 @@ pub fn replay(args: &[String]) {
         {
             rep.mismatch(json!({"what":"SharedBytes does not compare/order/hash like the slice it holds","a":a,"b":b}));
         }
+        {
+            let bs: &[u8] = &b[..];
+            let bv: Vec<u8> = b.to_vec();
+            let ar: &[u8] = sa.as_ref();
+            let bo: &[u8] = std::borrow::Borrow::borrow(&sa);
+            let from_ref = SharedBytes::from(&sa);
+            if (sa == *bs) != (a == b) || (sa == bs) != (a == b) || (sa == bv) != (a == b)
+                || PartialOrd::<[u8]>::partial_cmp(&sa, bs) != Some(a[..].cmp(&b[..]))
+                || (sa < sb) != (a < b) || (sa >= sb) != (a >= b)
+                || ar != &a[..] || bo != &a[..] || &from_ref[..] != &a[..] || format!("{sa:?}") != format!("{:?}", &a[..])
+            {
+                rep.mismatch(json!({"what":"a comparison or conversion impl of SharedBytes disagrees with the same operation on the slice it holds","a":a,"b":b}));
+            }
+        }
         if let (Ok(x), Ok(y)) = (std::str::from_utf8(&a), std::str::from_utf8(&b)) {
             let (ss, st) = (SharedString::from(x), SharedString::from(y.to_string()));
             if (ss == st) != (x == y) || ss.cmp(&st) != x.cmp(y) || h(&|s| ss.hash(s)) != h(&|s| x.hash(s)) || ss.as_str() != x
                 || &*SharedString::from(Cow::Borrowed(x)) != x || ss.to_string() != x || &ss.clone().into_bytes()[..] != x.as_bytes()
             {
                 rep.mismatch(json!({"what":"SharedString does not compare/order/hash/deref like the str it holds","a":x,"b":y}));
+            }
+            // every comparison and conversion impl, against the same operation on the strs
+            let ys = y.to_string();
+            let p: &std::path::Path = ss.as_ref();
+            let o: &std::ffi::OsStr = ss.as_ref();
+            let b: &[u8] = ss.as_ref();
+            let bo: &str = std::borrow::Borrow::borrow(&ss);
+            if ss.partial_cmp(&st) != x.partial_cmp(y) || PartialOrd::<str>::partial_cmp(&ss, y) != Some(x.cmp(y))
+                || (ss == *y) != (x == y) || (ss == y) != (x == y) || (ss == ys) != (x == y)
+                || (ss < st) != (x < y) || (ss >= st) != (x >= y)
+                || p != std::path::Path::new(x) || o != std::ffi::OsStr::new(x) || b != x.as_bytes() || bo != x
+                || format!("{ss}") != x || format!("{ss:?}") != format!("{x:?}")
+            {
+                rep.mismatch(json!({"what":"a comparison or conversion impl of SharedString disagrees with the same operation on the str it holds","a":x,"b":y}));
             }
         }
     }
